@@ -45,7 +45,25 @@ def define(decl, facts_fn, aux=False):
     return decl
 
 
+_APPS_CACHE: dict = {}
+
+
 def _apps(terms, names):
+    """Applications of the defined spec functions inside the given terms (cached per top-level term; the cache entry
+    keeps the term alive because z3 recycles the ids of freed terms)."""
+    out = {}
+    for t in terms:
+        k = (t.get_id(), len(names))
+        hit = _APPS_CACHE.get(k)
+        if hit is None:
+            hit = (t, _apps1([t], names))
+            _APPS_CACHE[k] = hit
+        for a in hit[1]:
+            out[a.get_id()] = a
+    return list(out.values())
+
+
+def _apps1(terms, names):
     seen, out, stack = set(), {}, list(terms)
     while stack:
         x = stack.pop()
